@@ -204,7 +204,8 @@ func workMain(fs *flag.FlagSet, args []string) {
 
 	manualGC()
 	sinceGC := 0
-	for idx := *from + *w; idx < *to; idx += *W {
+	abandoned := false
+	for idx := *from + *w; idx < *to && !abandoned; idx += *W {
 		if *deadline > 0 && time.Now().Unix() >= *deadline {
 			break
 		}
@@ -222,6 +223,10 @@ func workMain(fs *flag.FlagSet, args []string) {
 		}
 		record := len(o.Samples) < 2 && *w == 0
 		res := execRun(p, tape, *tier, record)
+		if res.Abandoned != "" {
+			o.Stats["runs abandoned (a task blocked on a lock or channel held by a parked task; not judged; the worker stopped there)"]++
+			break
+		}
 		account(idx, -1, res, tape, record)
 		o.BaseRuns++
 		if idx > o.MaxIdx {
@@ -238,6 +243,11 @@ func workMain(fs *flag.FlagSet, args []string) {
 				t2.Override = map[string]int{"config.faulty": 1, "faultpos": k}
 				rec2 := len(o.Samples) < 3 && *w == 0 && k == L/2
 				res2 := execRun(p, t2, *tier, rec2)
+				if res2.Abandoned != "" {
+					o.Stats["runs abandoned (a task blocked on a lock or channel held by a parked task; not judged; the worker stopped there)"]++
+					abandoned = true
+					break
+				}
 				account(idx, k, res2, t2, rec2)
 				o.SweepRuns++
 			}
